@@ -193,6 +193,27 @@ func checkC01(c c01Case, _ *kit.Collector) kit.Result {
 			errs = append(errs, "the framed reply decodes differently on a message object that decoded other frames before")
 		}
 	}
+	// (d) the header frames further messages: every frame carries the serial it was asked to carry - also 0 after other
+	// serials (a counter that wrapped) - and the same request gives the same bytes
+	if len(errs) == 0 {
+		for _, ser := range []uint16{0, c.PlatSerial, 0, 0xffff, 0} {
+			h.ReplyID, h.PlatformSerialNumber = c.ReplyID, ser
+			again := h.Encode(append([]byte(nil), c.Body...))
+			f2, why2 := ref.Validate(again)
+			if why2 != "" {
+				errs = append(errs, fmt.Sprintf("a later frame from the same header, asked for serial %d, is not well-formed: %s (frame %x)", ser, why2, head(again)))
+				break
+			}
+			if f2.Serial != ser || f2.ID != c.ReplyID || !bytes.Equal(f2.Body, c.Body) || !bytes.Equal(f2.PhoneBCD, c.Src.Phone) {
+				errs = append(errs, fmt.Sprintf("a later frame from the same header, asked for serial %d: %s serial %d id %#04x (frame %x)", ser, why2, f2.Serial, f2.ID, head(again)))
+				break
+			}
+			if ser == c.PlatSerial && !bytes.Equal(again, out) {
+				errs = append(errs, "the same request framed a second time gives other bytes")
+				break
+			}
+		}
+	}
 	if len(errs) > 0 {
 		res.Err = kit.Fail("round trip mismatch for frame %x: %v", head(out), errs)
 	}
